@@ -450,7 +450,7 @@ class History:
             if wrong:
                 res.violation('stream-deletion-removes-files-of-another-stream', f'{op["url"]}: removed {wrong[:2]}', rp)
             if t.get('key') and t['key']['n_removed']:
-                res.violation('stream-deletion-removes-shared-keys', f'{op["url"]}: removed keys {t["Key"]["removed"][:2]}', rp)
+                res.violation('stream-deletion-removes-shared-keys', f'{op["url"]}: removed keys {t["key"]["removed"][:2]}', rp)
             other = [r for r in removed('Stream') if r.get('pk') != spk]
             if other:
                 res.violation('stream-deletion-removes-other-streams', f'{op["url"]}: {other[:2]}', rp)
@@ -464,7 +464,7 @@ class History:
             if t.get('key') and t['key']['n_removed'] > t['key']['n_added']:
                 # a key is never owned by one media file: it may have been supplied by a user and
                 # other files can be encrypted with it
-                res.violation('media-deletion-removes-keys', f'{op["url"]}: removed keys {t["Key"]["removed"][:2]}', rp)
+                res.violation('media-deletion-removes-keys', f'{op["url"]}: removed keys {t["key"]["removed"][:2]}', rp)
         if name == 'upload':
             spk = int(op['url'].split('/')[2])
             gone = [r for r in removed('media_file') if r.get('stream') != spk]
@@ -477,7 +477,7 @@ class History:
                     res.violation('upload-deletes-file-of-another-stream',
                                   f'{op["url"]} file {op["file"][0]}: removed media file(s) {really_gone[:2]} of another stream', rp)
         if name in ('upload', 'index-media', 'edit-media') and t.get('key') and t['key']['n_removed'] > t['key']['n_added']:
-            res.violation(f'{name}-removes-keys', f'{op["url"]}: removed keys {t["Key"]["removed"][:2]}', rp)
+            res.violation(f'{name}-removes-keys', f'{op["url"]}: removed keys {t["key"]["removed"][:2]}', rp)
         if name.startswith('delete-key'):
             if t.get('media_file') and t['media_file']['n_removed'] > t['media_file']['n_added']:
                 res.violation('key-deletion-removes-media-files', f'{op["url"]}', rp)
